@@ -12,7 +12,7 @@ from xh_support import prepare_cattrs  # noqa: E402
 conv = prepare_cattrs("cl03.core.cattrs_converter")
 S = conv.structure_from_dict
 U = conv.unstructure_to_dict
-from cl03.models import Account, Address, Employee, Loose, Person, Stamps  # noqa: E402
+from cl03.models import Account, Address, Employee, Loose, Mixed, Person, Stamps  # noqa: E402
 
 STATUS = ["active", "in-active", "on hold"]
 LEVEL = [1, 2, 3]
@@ -23,7 +23,7 @@ BLOBS = ["", "AA==", "aGVsbG8=", "++++/v79/A=="]  # the last one uses both chara
 
 TIMES = ["10:20:30", "23:59:59.500000", "00:00:00+02:00"]
 _WARM = [
-    (Loose, {"id": 1, "at": TIMES[0], "meta": {"a": {"b": 1}}, "payload": {"x": [1]}, "rows": [{"k": 1}], "note": {"n": 1}, "slots": ["a", None], "counts": [1, None]}),
+    (Loose, {"id": 1, "at": TIMES[0], "meta": {"a": {"b": 1}}, "payload": {"x": [1]}, "rows": [{"k": 1}], "note": {"n": 1}, "slots": ["a", None], "counts": [1, None], "state": "active", "rank": 2}),
     (Person, {"firstName": "a", "mood": None, "user_name_2": "u", "home-address": {"street": "s"}, "status": "active", "level": 1, "attrs": {"k": 1}, "addresses": [{"street": "t"}], "grid": [[{"cell-id": "g", "zip-code": "z"}]]}),
     (Stamps, {"created": WHENS[0], "born": DAYS[0], "avatar": BLOBS[1], "blob": BLOBS[2], "score": 1.5, "active": True}),
     (Employee, {"id": 1, "boss": "b", "office": {"street": "s"}}),
@@ -312,6 +312,28 @@ def tw_loose_nullable_items(ints: bool, n: int, s: str, i: int, hole: int) -> bo
     return False
 
 
+def ob_loose_wrapped_refs(has_state: bool, null_state: bool, si: int, has_rank: bool, li: int) -> bool:
+    """
+    pre: 0 <= si < 3 and 0 <= li < 3
+    post: _
+    """
+    doc = {"id": 1}
+    if has_state:
+        doc["state"] = None if null_state else STATUS[si]
+    if has_rank:
+        doc["rank"] = LEVEL[li]
+    return _rt(doc, Loose)
+
+
+def tw_loose_wrapped_refs(has_state: bool, null_state: bool, si: int, has_rank: bool, li: int) -> bool:
+    """
+    pre: 0 <= si < 3 and 0 <= li < 3
+    post: _
+    """
+    U(S({"id": 1, "state": STATUS[si]}, Loose))
+    return False
+
+
 def ob_loose_freeform(which: int, v: int, s: str, n: int) -> bool:
     """
     pre: 0 <= which <= 3 and len(s) <= 2 and 1 <= n <= 2
@@ -350,8 +372,20 @@ def kf_loose_any_value(which: int, v: int, s: str) -> bool:
     return _norm(U(S(copy.deepcopy(doc), Loose))) == _norm(doc)
 
 
+def kf_mixed_extra_keys(i: int, has_extra: bool, v: int) -> bool:
+    """
+    pre: True
+    post: _
+    """
+    doc = {"id": i}
+    if has_extra:
+        doc["extra"] = v
+    return _norm(U(S(dict(doc), Mixed))) == _norm(doc)
+
+
 # kf_* conditions probe listed known findings (see /verif/known_findings.json): label of the finding each one witnesses
-KNOWN = {"kf_loose_any_value": lambda which, v, s: "any-schema-admits-only-objects"}
+KNOWN = {"kf_loose_any_value": lambda which, v, s: "any-schema-admits-only-objects",
+         "kf_mixed_extra_keys": lambda i, has_extra, v: "declared-properties-plus-additional-properties-drop-extras"}
 
 
 def ob_employee_allof(i: int, has_kind: bool, k: str, boss: str, has_office: bool, street: str) -> bool:
